@@ -106,7 +106,9 @@ def check_shared_drop(ctx, cf, b, close_calls):
         ctx.violated("R03.2", cf, "shared-drop-closes", cf.loc(), "SharedObservable's Drop never calls close: the stream cannot end")
         return
     ATOMIC = r"^std::sync::Arc::<.*>::(into_inner|try_unwrap)$"
-    COUNT = r"^std::sync::(Arc|Weak)::<.*>::(strong_count|weak_count)$"
+    # plain inspections of the reference counts (no release): strong_count / weak_count loads, and get_mut / is_unique,
+    # which additionally fail while Weak references exist (every WeakObservable holds one on the owner counter)
+    COUNT = r"^std::sync::(Arc|Weak)::<.*>::(strong_count|weak_count|get_mut|is_unique|make_mut)$"
     for blk, t in close_calls:
         ctx.call_sites += 1
         where = b.line_at((blk, 10 ** 6))
@@ -116,8 +118,8 @@ def check_shared_drop(ctx, cf, b, close_calls):
         if fed_by_count:
             s, tt, f = fed_by_count[0]
             ctx.violated("R03.2", cf, "decision=count-load", b.line_at((s, 10 ** 6)),
-                         "the branch guarding close (edge bb%d->bb%d) depends on a plain load `%s`: check-then-act on a shared reference count - "
-                         "two last clones dropped concurrently can both see 2 and neither closes (or both see 1)" % (s, tt, fmt_fact(f)))
+                         "the branch guarding close (edge bb%d->bb%d) depends on a plain inspection of the reference count, `%s`: check-then-act on a shared count - "
+                         "two last clones dropped concurrently can both see 2 and neither closes; Arc::get_mut/is_unique also fail while a WeakObservable exists" % (s, tt, fmt_fact(f)))
             continue
         # (i) success edge of an atomic last-reference test on the owner counter dominates close
         ok_edge = None
